@@ -972,3 +972,38 @@ Proof.
   assert (Z.ltb (Z.of_nat (String.length root)) (p_byte p - rs rr) = false) as -> by (apply Z.ltb_ge; lia).
   reflexivity.
 Qed.
+
+(* object attribute names offered inside an object value: exactly the attributes of the constraint that start with the
+   typed text and are not declared elsewhere in the object (an attribute whose own item is being edited stays) *)
+Lemma attrs_to_cands_exact prefill prefix ats d er name :
+  (exists n s t, In (VC kAttribute (Some name) n s t (fst er) (snd er)) (attrs_to_cands prefill prefix ats d er)) <->
+  (exists a, In (name, a) ats) /\ bytes_prefix prefix name = true /\ (forall dr, decl_get d name = Some dr -> overlaps dr er = true).
+Proof.
+  unfold attrs_to_cands. split.
+  - intros (n & s & t & H). apply in_flat_map in H as ([nm a] & Hin & H).
+    destruct (bytes_prefix prefix nm) eqn:Ep; cbn [negb] in H; [|destruct H].
+    destruct (decl_get d nm) as [dr|] eqn:Ed.
+    + destruct (overlaps dr er) eqn:Eo; cbn [negb] in H; [|destruct H].
+      destruct (ecd prefill 40 (as_cons a) 1 0); destruct H as [H|[]]; injection H as <- _ _ _;
+        (split; [exists a; exact Hin|split; [exact Ep|intros dr' E; rewrite Ed in E; injection E as <-; exact Eo]]).
+    + destruct (ecd prefill 40 (as_cons a) 1 0); destruct H as [H|[]]; injection H as <- _ _ _;
+        (split; [exists a; exact Hin|split; [exact Ep|intros dr' E; rewrite Ed in E; discriminate]]).
+  - intros ((a & Hin) & Ep & Hd).
+    assert (Hx : exists n s t, In (VC kAttribute (Some name) n s t (fst er) (snd er))
+              ((fun a0 : string * attr_schema => let '(name0, s0) := a0 in
+                 if negb (bytes_prefix prefix name0) then []
+                 else match decl_get d name0 with
+                      | Some dr => if negb (overlaps dr er) then [] else
+                          [match ecd prefill 40 (as_cons s0) 1 0 with
+                           | Some c => VC kAttribute (Some name0) (Some name0) (Some (name0 ++ " = " ++ render (cd_snip c))%string) (Some (cd_trigger c)) (fst er) (snd er)
+                           | None => VC kAttribute (Some name0) (Some name0) None None (fst er) (snd er) end]
+                      | None =>
+                          [match ecd prefill 40 (as_cons s0) 1 0 with
+                           | Some c => VC kAttribute (Some name0) (Some name0) (Some (name0 ++ " = " ++ render (cd_snip c))%string) (Some (cd_trigger c)) (fst er) (snd er)
+                           | None => VC kAttribute (Some name0) (Some name0) None None (fst er) (snd er) end]
+                      end) (name, a))).
+    { cbn beta iota. rewrite Ep. cbn [negb]. destruct (decl_get d name) as [dr|] eqn:Ed.
+      - rewrite (Hd dr eq_refl). cbn [negb]. destruct (ecd prefill 40 (as_cons a) 1 0); repeat eexists; left; reflexivity.
+      - destruct (ecd prefill 40 (as_cons a) 1 0); repeat eexists; left; reflexivity. }
+    destruct Hx as (n & s & t & Hx). exists n, s, t. apply in_flat_map. exists (name, a). split; [exact Hin|exact Hx].
+Qed.
